@@ -16,6 +16,9 @@ fresh group, p = the `total_cycles` of the suspended state) completes iff c - p 
  m5  `complete(state, max)`: Ok only with the total c0 + c1 + c2, never beyond the budget, always when the budget covers the total;
  m6  the task spawned by `chunk_run_with_signal` (pause/resume commands): every `Scheduler::run` is limited to max_cycles minus what the scheduler consumed before, for any command sequence
      and run outcomes; Stop sends `stopped`; a non-pause outcome is what is sent back.
+ m7  the group loop of `resumable_verify_with_signal(limit)`: Ok iff the sum fits into the limit, then exactly the sum; each group gets the limit minus the cost of the groups before it;
+ m8  `detailed_run` / `run` / `map_vm_internal_error`: the scheduler runs with LimitCycles(budget); CyclesExceeded -> ExceededMaximumCycles(budget); External("stopped") -> Interrupts;
+     every other VM error passed on; Ok(consumed) iff exit code 0.
 
 Outside: the VM and the scheduler (spawn/exec/pause syscalls, multi-VM scheduling, snapshots), i.e. that a real script run satisfies the contract; the signal-driven variants.
 """
@@ -573,6 +576,178 @@ def m6_signal_child_budget(S):
 
 
 OBLIGATIONS = OBLIGATIONS + [m6_signal_child_budget]
+
+
+def m7_resumable_verify_with_signal(S):
+    """the group loop of `resumable_verify_with_signal(limit)` (async fn body executed as a coroutine; `verify_group_with_signal(group, budget)` is a future obeying the run contract:
+    Ok(cost) iff cost <= budget, else the cycle-limit error -- which m6 establishes for the paused/resumed VM run): Ok iff the sum of the group costs fits into the limit, and then exactly
+    that sum; every group is handed the limit minus the cost of the groups before it"""
+    from mir2smt.exec import CoroV
+    ob = "C05.m7"
+    fs, cs, vr, ts = _setup(S)
+    c = [f for f in S.prog.funcs if f.kind == "fn" and re.search(r"::resumable_verify_with_signal::\{closure#0\}$", f.name) and len(f.params) == 2 and "Context" in f.params[1][1]]
+    if len(c) != 1:
+        raise Inconclusive(f"resumable_verify_with_signal body: {len(c)} candidates")
+    f = c[0]
+    ix = {}
+    for name, place in f.debug.items():
+        m_ = re.match(r"\(\(\*\(_1\.0: .*?\)\)\.(\d+): ", place)
+        if m_:
+            ix[name] = int(m_.group(1))
+    if not all(k in ix for k in ("self", "limit_cycles", "command_rx")):
+        raise Inconclusive(f"upvars: {ix}")
+    ctx = S.ctx(unwind=8)
+    ctx.uninterpreted_unknown_calls = True
+    M = Model(ctx, fs, cs, n=(5 if S.tier == "thorough" else N_GROUPS))
+    lim = ctx.int("limit_cycles", "u64")
+    budgets = []
+
+    def start(ex, c_, a, d):
+        g = M.gidx(ex, a[1])
+        b = deref(ex, a[2]) if isinstance(a[2], RefV) else a[2]
+        budgets.append((g, b.t, list(ex.pc)))
+        return AggV((IntV(g, "usize"), b), "SignalRunFuture")
+
+    def poll(ex, c_, a, d):
+        fut = a[0]
+        for _ in range(3):
+            if isinstance(fut, (RefV,)):
+                fut = deref(ex, fut)
+            elif isinstance(fut, AggV) and fut.ty == "Pin":
+                fut = fut.fields[0]
+        if not (isinstance(fut, AggV) and fut.ty == "SignalRunFuture"):
+            raise Stop(f"poll of an unknown future: {str(fut)[:80]}")
+        g, b = fut.fields[0].t, fut.fields[1].t
+        res = mk_result(T.le(M.c[g].t, b), IntV(M.c[g].t, "u64"), OpaqueV("exceeded_maximum_cycles", "ScriptError"), "Result<u64, ScriptError>")
+        return EnumV(0, ((0, (res,)),), d)
+    ctx.env = [(E.rx(r"TransactionScriptsVerifier::<.*>::verify_group_with_signal$"), start),
+               (E.rx(r" as IntoFuture>::into_future$"), lambda ex, c_, a, d: a[0]),
+               (E.rx(r"Pin::<.*>::new_unchecked$"), lambda ex, c_, a, d: a[0]),
+               (E.rx(r" as Future>::poll$"), poll)] + M.env()
+    ups = {ix["self"]: ctx.ref_to(OpaqueV("verifier", "TransactionScriptsVerifier")), ix["limit_cycles"]: lim, ix["command_rx"]: ctx.ref_to(OpaqueV("command_rx", "Receiver"))}
+    ps = S.run(ctx, f, [AggV((ctx.ref_to(CoroV(0, tuple(sorted(ups.items())), (), "coroutine")),), "Pin"), ctx.ref_to(OpaqueV("task_context", "Context"))])
+    pre = [T.le(M.total(), U64)]
+    S.prove(ctx, ob, "no_panic", pre, T.not_(cond_of(panics(ps))))
+    tot = M.total()
+    okc, okv, shape = [], [], True
+    for p in returns(ps):
+        v = p.value
+        if not (isinstance(v, EnumV) and v.disc == 0):          # Poll::Ready
+            shape = False
+            continue
+        r = v.payload(0)[0]
+        if isinstance(r, EnumV):
+            isok = (r.disc == 0) if isinstance(r.disc, int) else T.eq(r.disc, 0)
+            okc.append(T.and_(p.cond(), isok))
+            if r.payload(0):
+                okv.append(T.implies(T.and_(p.cond(), isok), T.eq(as_int(r.payload(0)[0]), tot)))
+        else:
+            shape = False
+    S.prove(ctx, ob, "always_ready_with_a_result", [], bool(shape and okc))
+    S.prove(ctx, ob, "succeeds_iff_the_limit_covers_the_uninterrupted_cost", pre, T.iff(T.or_(*okc), T.le(tot, lim.t)))
+    S.prove(ctx, ob, "reports_the_sum_of_the_group_costs", pre, T.and_(*okv) if okv else False)
+    S.prove(ctx, ob, "every_group_gets_the_limit_minus_the_cost_of_the_groups_before_it", pre, T.and_(*[T.implies(T.and_(*pc), T.eq(b, T.sub(lim.t, M.prefix(g)))) for g, b, pc in budgets]) if len({g for g, _, _ in budgets}) == M.n else False)
+
+
+OBLIGATIONS = OBLIGATIONS + [m7_resumable_verify_with_signal]
+
+
+def _se_kind(v, se):
+    """(variant name, payload) of a ScriptError value: enums of other source files are executed either as EnumV or as an aggregate named after the variant"""
+    if isinstance(v, EnumV) and isinstance(v.disc, int) and v.disc < len(se):
+        return se[v.disc], v.payload(v.disc)
+    if isinstance(v, AggV) and isinstance(v.ty, str) and v.ty.startswith("ScriptError::"):
+        return v.ty.split("::", 1)[1], v.fields
+    if isinstance(v, OpaqueV) and re.match(r"enumconst\.ScriptError__\w+$", str(v.name)):       # a field-less variant of an enum of another source file
+        return str(v.name).split("ScriptError__", 1)[1], ()
+    return "?" + str(v)[:60], ()
+
+
+def m8_single_run_mapping(S):
+    """the uninterrupted single-group run (`detailed_run`, `run`) and `map_vm_internal_error`: the scheduler is run with RunMode::LimitCycles(budget); CyclesExceeded becomes
+    ExceededMaximumCycles(that budget) -- "reports the cycle limit" --, External("stopped") becomes Interrupts, every other VM error is passed on; `run` answers Ok(consumed cycles of the
+    terminated result) iff the exit code is 0, a validation failure for any other exit code"""
+    ob = "C05.m8"
+    from mir2smt.srcinfo import field_index
+    from mir2smt import exec as X
+    vme = _variants_vm()
+    X.ENUMS["ckb_vm::Error"] = [n for n, _ in sorted(vme.items(), key=lambda kv: kv[1])]       # variants of the vendored ckb-vm error enum, read from its source (projection `as External`)
+    se = _variants("script/src/error.rs", "ScriptError")
+    rm = _variants("script/src/types.rs", "RunMode")
+    tr = field_index("script/src/types.rs", "TerminatedResult")
+    # ---- map_vm_internal_error, one call per VM error variant
+    seen = {}
+    for name, disc in sorted(vme.items(), key=lambda kv: kv[1]):
+        ctx = S.ctx()
+        ctx.uninterpreted_unknown_calls = True
+        mx = ctx.int("max_cycles", "u64")
+        stopped = ctx.bool("reason_is_stopped")
+        ctx.env = [(E.rx(r"<(std::string::)?String as PartialEq<str>>::eq$"), lambda ex, c_, a, d: BoolV(stopped.t))]
+        err = EnumV(disc, ((disc, (OpaqueV("payload", "?"),)),), "ckb_vm::Error")
+        try:
+            ps = S.run(ctx, _fn(S, "map_vm_internal_error", 3), [ctx.ref_to(OpaqueV("verifier", "TransactionScriptsVerifier")), err, mx])
+        except Inconclusive:
+            raise
+        outs = []
+        for p_ in returns(ps):
+            k_, pl_ = _se_kind(p_.value, se)
+            outs.append((k_, pl_, p_))
+        seen[name] = outs
+        if name == "CyclesExceeded":
+            S.prove(ctx, ob, "cycles_exceeded_reports_the_cycle_limit_it_was_run_with", [], T.and_(bool(outs and all(k == "ExceededMaximumCycles" for k, _, _ in outs)), *[T.eq(as_int(pl[0]), mx.t) for k, pl, _ in outs if pl]))
+        elif name == "External":
+            S.prove(ctx, ob, "external_stopped_is_interrupts_any_other_external_error_is_passed_on", [],
+                    T.and_(bool({k for k, _, _ in outs} == {"Interrupts", "VMInternalError"}), *[T.implies(p_.cond(), stopped.t if k == "Interrupts" else T.not_(stopped.t)) for k, _, p_ in outs]))
+    others = {n: {k for k, _, _ in o} for n, o in seen.items() if n not in ("CyclesExceeded", "External")}
+    ctx = S.ctx()
+    S.prove(ctx, ob, "every_other_vm_error_is_passed_on_as_it_is", [], bool(others and all(v == {"VMInternalError"} for v in others.values())), extra={"note": str({n: sorted(v) for n, v in others.items() if v != {"VMInternalError"}})})
+    # ---- detailed_run / run
+    ctx = S.ctx()
+    ctx.uninterpreted_unknown_calls = True
+    mx = ctx.int("max_cycles", "u64")
+    code, total = ctx.int("exit_code", "i8"), ctx.int("terminated_total_cycles", "u64")
+    term, created = ctx.bool("script_terminated"), ctx.bool("scheduler_created")
+    errdisc = ctx.int("vm_error_kind", "u8")
+    modes = []
+
+    def run(ex, c_, a, d):
+        mode = deref(ex, a[1]) if isinstance(a[1], RefV) else a[1]
+        modes.append((mode.disc if isinstance(mode, EnumV) else None, mode.payload(mode.disc)[0].t if isinstance(mode, EnumV) and isinstance(mode.disc, int) else None))
+        okv = AggV(tuple((code if n == "exit_code" else total) for n, _ in sorted(tr.items(), key=lambda kv: kv[1])), "TerminatedResult")
+        if ex.decide(term.t):
+            return mk_result(True, okv, OpaqueV("e", "?"), d)
+        for name, disc in sorted(vme.items(), key=lambda kv: kv[1]):
+            if name in ("CyclesExceeded", "External", "Pause") and ex.decide(T.eq(errdisc.t, disc)):
+                return mk_result(False, okv, EnumV(disc, ((disc, (OpaqueV("payload", "?"),)),), "ckb_vm::Error"), d)
+        return mk_result(False, okv, EnumV(vme["Unexpected"], ((vme["Unexpected"], (OpaqueV("msg", "String"),)),), "ckb_vm::Error"), d)
+    ctx.env = list(E.LOGGING_OFF) + [
+        (E.rx(r"TransactionScriptsVerifier::<.*>::create_scheduler$"), lambda ex, c_, a, d: mk_result(created.t, OpaqueV("scheduler_fresh", "Scheduler"), OpaqueV("create_error", "ScriptError"), d)),
+        (E.rx(r"Scheduler::<.*>::run$"), run),
+        (E.rx(r"<(std::string::)?String as PartialEq<str>>::eq$"), lambda ex, c_, a, d: BoolV(ctx.bool("reason_is_stopped").t)),
+        (E.rx(r"ScriptError::validation_failure$"), lambda ex, c_, a, d: OpaqueV("validation_failure", d)),
+    ]
+    ps = S.run(ctx, _fn(S, "run", 3), [ctx.ref_to(OpaqueV("verifier", "TransactionScriptsVerifier")), ctx.ref_to(OpaqueV("group0", "ScriptGroup")), mx])
+    S.prove(ctx, ob, "no_panic", [], T.not_(cond_of(panics(ps))))
+    S.prove(ctx, ob, "the_scheduler_runs_with_the_budget_as_its_cycle_limit", [], bool(modes and all(dsc == rm.index("LimitCycles") and l == mx.t for dsc, l in modes)), extra={"note": str(modes[:2])})
+    okc, goals, limit_errors = [], [], []
+    for p_ in returns(ps):
+        v = p_.value
+        if isinstance(v, EnumV) and isinstance(v.disc, int) and v.disc == 0:
+            okc.append(p_.cond())
+            goals.append(T.implies(p_.cond(), T.eq(as_int(v.payload(0)[0]), total.t)))
+        elif isinstance(v, EnumV) and isinstance(v.disc, int) and v.disc == 1:
+            k_, pl_ = _se_kind(v.payload(1)[0], se)
+            if k_ == "ExceededMaximumCycles":
+                goals.append(T.implies(p_.cond(), T.and_(T.not_(term.t), T.eq(errdisc.t, vme["CyclesExceeded"]), T.eq(as_int(pl_[0]), mx.t))))
+                limit_errors.append(p_.cond())
+        else:
+            goals.append(T.not_(p_.cond()))
+    S.prove(ctx, ob, "ok_iff_created_terminated_and_exit_code_zero", [], T.iff(T.or_(*okc) if okc else False, T.and_(created.t, term.t, T.eq(code.t, 0))))
+    S.prove(ctx, ob, "ok_carries_the_consumed_cycles_and_the_limit_error_carries_the_budget", [], T.and_(*goals) if goals else False)
+    S.prove(ctx, ob, "a_run_that_exceeds_its_cycle_limit_reports_exceeded_maximum_cycles", [], T.iff(T.or_(*limit_errors) if limit_errors else False, T.and_(created.t, T.not_(term.t), T.eq(errdisc.t, vme["CyclesExceeded"]))))
+
+
+OBLIGATIONS = OBLIGATIONS + [m8_single_run_mapping]
 
 ENGINE = "M"
 LEVEL = "other"
